@@ -137,6 +137,10 @@ _k("constant-inside-repeat", "compile", "error", "unexpected-symbol-definition",
    note="the report site passes the whole assignment")
 _k("label-as-insn", "compile", "error", "meta-type-mismatch", "«li{u}» r0", pre=["li{u}: nop"])
 _k("constant-as-insn-without-comma", "compile", "error", "meta-type-mismatch", "«ci{u}» 3", pre=["ci{u} = 5"])
+_k("code-block-to-insn", "compile", "error", "wrong-operands", "«mov r0 { nop }»",
+   note="the report site passes the whole instruction including the block")
+_k("code-block-to-meta", "compile", "error", "wrong-meta-operands", "«.word 1 { nop }»",
+   note="the report site passes the whole metacommand including the block")
 _k("hash-in-directive", "compile", "error", "excess-hash", ".word «#5»",
    note="an error in a metacommand (metacommand_impl.py), a warning in an instruction (insns.py)")
 _k("hash-in-implicit-immediate", "compile", "warning", "excess-hash", "trap «#5»")
@@ -178,6 +182,16 @@ _k("unencodable-string", "eval", "error", "invalid-character", "«.ascii \"a€b
 _k("unencodable-char-literal", "eval", "error", "invalid-character", "mov #«'€», r0")
 _k("rad50-bad-character", "eval", "error", "invalid-character", ".rad50 \"AB\" «\"a!\"»")
 _k("rad50-bad-code", "eval", "error", "value-out-of-bounds", ".rad50 \"AB\"«<50.>»")
+_k("rad50-bad-code-after-blanks", "eval", "error", "value-out-of-bounds", ".rad50 \"AB\"   «<50.>»",
+   note="fixed in d4aabd3: the span of a '<n>' chunk used to start at the blanks before '<'")
+_k("rad50-bad-code-on-continuation-line", "eval", "error", "value-out-of-bounds", ".rad50 \"AB\"\n\t«<51.>» \"C\"",
+   note="fixed in d4aabd3: the span used to start at the end of the previous line")
+_k("code-point-out-of-range-after-blanks", "eval", "error", "value-out-of-bounds", ".rad50 \"A\" \t«<2000000.>»",
+   note="'<n>' in '.rad50' is a code 0..39; reported by rad50 with the chunk's span")
+_k("tape-name-unencodable", "eval", "error", "invalid-character", "«make_wav \"x{u}.wav\", \"α\"»",
+   note="the report site passes the whole statement")
+_k("tape-name-too-long", "eval", "error", "too-long-string", "«make_turbo_wav \"x{u}.wav\", \"12345678901234567\"»",
+   note="the report site passes the whole statement")
 _k("user-error", "eval", "error", "user-error", "«.error stop here»",
    note="the report site passes the whole '.error' statement")
 _k("missing-include", "eval", "error", "io-error", "«.include \"nofile{u}.mac\"»",
